@@ -12,11 +12,11 @@ from vf.core import Workload
 from vf import taps, gen, tx, ref
 
 ID = "C09"
-TECHNIQUE = "runtime monitoring: apply-funnel taps comparing every result with a history-free twin; cache hit/miss observation; brute-force containment reference"
+TECHNIQUE = "runtime monitoring: taps on every batched apply funnel (discovered at run time) comparing each result with a history-free twin and with an independent reference map; cache hit/miss observation; brute-force containment reference"
 LEVEL_TEXT = ("Every array-level application in random histories (reuse of the same array object edited in place, inputs closer than any tolerance, alternating shapes and "
               "arrays, calls on copies, every batch size 1..n+2, mixed in/out-of-domain points, failures followed by retries) is compared with a transform freshly rebuilt from "
               "its constructor arguments; held-on-what-was-observed")
-LEVEL_NOTE = "trusted: the constructor recipe as 'parameters only' reference; the brute-force barycentric containment test with a 1e-6 margin (points within the margin are not judged)"
+LEVEL_NOTE = "trusted: the constructor recipe as 'parameters only' reference and the independent evaluations in vf/refmap.py (1e-8 relative, 1e-6 for splines and chains); the brute-force barycentric containment test with a 1e-6 margin (points within the margin are not judged)"
 DESIGN_REF = "DESIGN.md section 7, C09"
 RULE = ("per transform instance (all kinds, weight on the caching piecewise affine) a history of 5-30 apply calls; non-trivial = history contains a reuse / in-place edit / near-equal "
         "input, or a batch size that does not divide n, or a failing point not in the last batch; distinct = (kind, dims, sorted set of history-event kinds, batch-size classes)")
